@@ -90,6 +90,11 @@ func ruleSYM(c *Checker) {
 			enc := encs[0].(*ssa.Call)
 			okk = adIsDigest(eah, enc) && enc.Common().Args[len(enc.Common().Args)-1] == ssa.Value(eah.Params[1]) &&
 				mixes[0].Common().Args[1] == ssa.Value(enc) && instrDominates(enc, mixes[0])
+			// sealed into a buffer of its own: the plaintext is the caller's (the responder's stored
+			// auth payload, sent again on every reconnect) and must not be overwritten with ciphertext
+			if a := enc.Common().Args; len(a) == 4 && !isNilConst(a[2]) {
+				okk = false
+			}
 			allInstrs(eah, func(in ssa.Instruction) {
 				if ret, ok := in.(*ssa.Return); ok && unwrapLoadAlloc(ret.Results[0]) != ssa.Value(enc) {
 					okk = false
@@ -110,6 +115,10 @@ func ruleSYM(c *Checker) {
 			why = w2
 			okk = e && adIsDigest(dah, dec) && dec.Common().Args[len(dec.Common().Args)-1] == ssa.Value(dah.Params[1]) &&
 				mixes[0].Common().Args[1] == ssa.Value(dah.Params[1])
+			// opened into a buffer of its own: the ciphertext is hashed AFTER the decryption
+			if a := dec.Common().Args; len(a) == 4 && !isNilConst(a[2]) {
+				okk = false
+			}
 			// the digest is only touched after a successful decryption
 			var errv ssa.Value
 			for _, r := range *dec.Referrers() {
